@@ -79,6 +79,76 @@ def joinWith (sep : Char) : List (List Char) → List Char
 
 def natToDigits (n : Nat) : List Char := (toString n).toList
 
+/-! ### UTF-8 (one `Char` per byte) -/
+
+def u8 (c : Char) : Nat := c.toNat % 256
+def fffd : List Char := [Char.ofNat 0xEF, Char.ofNat 0xBF, Char.ofNat 0xBD]
+def cont (c : Char) : Bool := 0x80 ≤ u8 c && u8 c ≤ 0xBF
+/-- second byte of a three-byte sequence led by `b` (no overlongs, no surrogates) -/
+def second3 (b c : Char) : Bool :=
+  if u8 b = 0xE0 then 0xA0 ≤ u8 c && u8 c ≤ 0xBF else if u8 b = 0xED then 0x80 ≤ u8 c && u8 c ≤ 0x9F else cont c
+/-- second byte of a four-byte sequence led by `b` (no overlongs, nothing above U+10FFFF) -/
+def second4 (b c : Char) : Bool :=
+  if u8 b = 0xF0 then 0x90 ≤ u8 c && u8 c ≤ 0xBF else if u8 b = 0xF4 then 0x80 ≤ u8 c && u8 c ≤ 0x8F else cont c
+
+def validUtf8 : List Char → Bool
+  | [] => true
+  | b :: r =>
+    if u8 b < 0x80 then validUtf8 r
+    else if 0xC2 ≤ u8 b && u8 b ≤ 0xDF then
+      match r with
+      | c1 :: r1 => cont c1 && validUtf8 r1
+      | _ => false
+    else if 0xE0 ≤ u8 b && u8 b ≤ 0xEF then
+      match r with
+      | c1 :: c2 :: r2 => second3 b c1 && cont c2 && validUtf8 r2
+      | _ => false
+    else if 0xF0 ≤ u8 b && u8 b ≤ 0xF4 then
+      match r with
+      | c1 :: c2 :: c3 :: r3 => second4 b c1 && cont c2 && cont c3 && validUtf8 r3
+      | _ => false
+    else false
+
+/-- what a Go string becomes after `encoding/json` encoding and decoding: every byte that does not start a well-formed UTF-8
+sequence is replaced by U+FFFD -/
+def jsonStr : List Char → List Char
+  | [] => []
+  | b :: r =>
+    if u8 b < 0x80 then b :: jsonStr r
+    else if 0xC2 ≤ u8 b && u8 b ≤ 0xDF then
+      match r with
+      | c1 :: r1 => if cont c1 then b :: c1 :: jsonStr r1 else fffd ++ jsonStr (c1 :: r1)
+      | [] => fffd
+    else if 0xE0 ≤ u8 b && u8 b ≤ 0xEF then
+      match r with
+      | c1 :: c2 :: r2 => if second3 b c1 && cont c2 then b :: c1 :: c2 :: jsonStr r2 else fffd ++ jsonStr (c1 :: c2 :: r2)
+      | [c1] => fffd ++ jsonStr [c1]
+      | [] => fffd
+    else if 0xF0 ≤ u8 b && u8 b ≤ 0xF4 then
+      match r with
+      | c1 :: c2 :: c3 :: r3 => if second4 b c1 && cont c2 && cont c3 then b :: c1 :: c2 :: c3 :: jsonStr r3 else fffd ++ jsonStr (c1 :: c2 :: c3 :: r3)
+      | [c1, c2] => fffd ++ jsonStr [c1, c2]
+      | [c1] => fffd ++ jsonStr [c1]
+      | [] => fffd
+    else fffd ++ jsonStr r
+termination_by l => l.length
+decreasing_by all_goals (simp only [List.length_cons]; omega)
+
+theorem jsonStr_of_valid (l : List Char) : validUtf8 l = true → jsonStr l = l := by
+  fun_induction validUtf8 l
+  case case1 => intro _; simp [jsonStr]
+  case case2 b r hb ih => intro h; rw [jsonStr.eq_def]; simp only [hb, if_true]; rw [ih h]
+  case case3 b h1 h2 c1 r1 ih =>
+    intro h; simp only [Bool.and_eq_true] at h
+    rw [jsonStr]; simp only [h1, h2, h.1, if_true, if_false]; rw [ih h.2]
+  case case5 b h1 h2 h3 c1 c2 r2 ih =>
+    intro h; simp only [Bool.and_eq_true] at h
+    rw [jsonStr]; simp only [h1, h2, h3, h.1.1, h.1.2, Bool.and_self, Bool.false_eq_true, if_true, if_false]; rw [ih h.2]
+  case case7 b h1 h2 h3 h4 c1 c2 c3 r3 ih =>
+    intro h; simp only [Bool.and_eq_true] at h
+    rw [jsonStr]; simp only [h1, h2, h3, h4, h.1.1.1, h.1.1.2, h.1.2, Bool.and_self, Bool.false_eq_true, if_true, if_false]; rw [ih h.2]
+  all_goals (intro h; cases h)
+
 end Settlus
 
 namespace Settlus
